@@ -71,43 +71,25 @@ func vfC17WaitBound() time.Duration {
 // Such a goroutine outlives its case. It is attributed to the case that asks only if it has not been
 // seen before in this process (vfC17StuckSeen, by goroutine id) and - when the case knows the address
 // of its own weighted semaphore (match) - if that address is the receiver in the blocked frame.
-func vfC17BlockedForGood(match string) string {
-	var buf []byte
-	for size := 1 << 20; ; size *= 8 {
-		buf = make([]byte, size)
-		if n := runtime.Stack(buf, true); n < size || size >= 1<<29 {
-			buf = buf[:n]
-			break
-		}
-	}
+func vfC17BlockedForGood(gs []vfC17Gor, match string, only string) (id, stack string) {
 	vfC17StuckMu.Lock()
 	defer vfC17StuckMu.Unlock()
-	for _, g := range strings.Split(string(buf), "\n\n") {
-		nl := strings.IndexByte(g, '\n')
-		if nl < 0 {
+	for _, g := range gs {
+		if !strings.Contains(g.state, "(nil chan)") && !strings.Contains(g.state, "select (no cases)") {
 			continue
 		}
-		head := g[:nl]
-		if !strings.Contains(head, "(nil chan)") && !strings.Contains(head, "select (no cases)") {
+		if !strings.Contains(g.raw, "/pkg/util/sem.") && !strings.Contains(g.raw, "/pkg/util/limitlistener.(") {
 			continue
 		}
-		if !strings.Contains(g, "/pkg/util/sem.") && !strings.Contains(g, "/pkg/util/limitlistener.(") {
+		if vfC17StuckSeen[g.id] || (only != "" && g.id != only) {
 			continue
 		}
-		id := head
-		if i := strings.IndexByte(head, '['); i > 0 {
-			id = head[:i]
-		}
-		if vfC17StuckSeen[id] {
-			continue
-		}
-		if match != "" && !strings.Contains(g, match) {
+		if match != "" && !strings.Contains(g.raw, match) {
 			continue // some other case's semaphore (that case ended before it looked)
 		}
-		vfC17StuckSeen[id] = true
-		return g
+		return g.id, g.raw
 	}
-	return ""
+	return "", ""
 }
 
 var (
@@ -116,7 +98,11 @@ var (
 )
 
 // blockedForGood: vfC17BlockedForGood restricted to this case's semaphore where its address is known.
-func (r *vfC17Rig) blockedForGood() string {
+func (r *vfC17Rig) blockedForGood(locked ...bool) string {
+	return r.blockedForGood2(len(locked) > 0 && locked[0])
+}
+
+func (r *vfC17Rig) blockedForGood2(locked bool) string {
 	if r.sem != nil && r.semMatch == "" {
 		v := reflect.ValueOf(r.sem).Elem()
 		want := reflect.TypeOf((*semaphore.Weighted)(nil))
@@ -129,10 +115,30 @@ func (r *vfC17Rig) blockedForGood() string {
 			r.semMatch = "-" // not found: any not yet attributed goroutine counts
 		}
 	}
-	if r.semMatch == "" || r.semMatch == "-" {
-		return vfC17BlockedForGood("")
+	match := r.semMatch
+	if match == "-" {
+		match = ""
 	}
-	return vfC17BlockedForGood(r.semMatch)
+	// candidate from one snapshot (cheap); the verdict needs the stable confirmation (vfC17Stable)
+	id, _ := vfC17BlockedForGood(vfC17Goroutines(), match, "")
+	if id == "" {
+		return ""
+	}
+	if locked {
+		r.mu.Unlock() // the confirmation takes seconds and must see the system as it runs by itself
+		defer r.mu.Lock()
+	}
+	proof, note := vfC17Stable(nil, func(gs []vfC17Gor) string {
+		_, stack := vfC17BlockedForGood(gs, match, id)
+		return stack
+	})
+	if proof == "" {
+		return ""
+	}
+	vfC17StuckMu.Lock()
+	vfC17StuckSeen[id] = true
+	vfC17StuckMu.Unlock()
+	return proof + "\n[" + note + "]"
 }
 
 // vfC17StuckPoller decides when a bounded wait looks for goroutines that are blocked for good:
@@ -623,7 +629,7 @@ func (r *vfC17Rig) waitFor(pred func() bool) bool {
 			return false
 		}
 		if p.due() {
-			if g := r.blockedForGood(); g != "" {
+			if g := r.blockedForGood(true); g != "" {
 				r.stuck = g
 				return false
 			}
